@@ -112,3 +112,13 @@ Definition approx_row (d d' : row) : bool :=
   && forallb (fun i => val_eqb (nth i d VNull) (nth i d' VNull)) [0; 1; 2; 3; 4; 5; 6; 12]%nat
   && forallb (fun i => within (coord_tol (nth i d VNull)) (nth i d VNull) (nth i d' VNull)) [7; 8; 9]%nat
   && forallb (fun i => within (5#1000) (nth i d VNull) (nth i d' VNull)) [10; 11]%nat.
+
+(* wwPDB atom-name alignment: the element symbol is right-justified in columns 13-14, so a name
+   starts in column 14 unless it has four characters, is a two-letter element symbol itself, or
+   is a three-character name beginning with a digit (e.g. 1HG) *)
+Definition spec_atomname (nm el : string) : string :=
+  let n := length nm in
+  if Nat.eqb n 4 then nm
+  else if (Nat.eqb n 2 && String.eqb nm el) || (Nat.eqb n 3 && is_digit (match nm with String c _ => c | _ => " "%char end))
+       then nm ++ repeat_char " "%char (4 - n)
+       else String " "%char nm ++ repeat_char " "%char (3 - n).
